@@ -37,6 +37,19 @@ def node_po3(a, b='db', c='dc', /, *rest, k='dk'):
   return vfx.rec('node_po3', locals())
 
 
+def immut_fn(x='dx', y='dy'):
+  """Registered as a function with an immutable return value."""
+  return vfx.rec('immut_fn', locals())
+
+
+def _register_immutable():
+  from fiddle._src import daglish_extensions  # pylint: disable=g-import-not-at-top
+  daglish_extensions.register_function_with_immutable_return_value(immut_fn)
+
+
+_register_immutable()
+
+
 def node_va(a='da', *args):
   """A named parameter below *args."""
   return vfx.rec('node_va', locals())
